@@ -157,7 +157,7 @@ type offerTracker struct {
 	received        map[string][]byte
 	stalledSince    []time.Duration          // establishment times of inbound streams the puppet stalls
 	noListenAt      []time.Duration          // when an offer was accepted without any listener behind the connection id
-	bigStallAt      []time.Duration          // establishment times of outbound streams of a 3 MB item that the puppet never reads
+	bigStallAt      [][2]time.Duration       // outbound streams of a 3 MB item that the puppet never reads: {established at, ACCEPT sent at}
 	bigKeys         map[string]bool          // content keys of 3 MB items
 	pendingDial     map[uint16]time.Duration // accepted offers whose stream the offerer has not established yet (by connection id)
 	now             func() time.Duration
@@ -204,10 +204,11 @@ func (p *puppet) serveOffer(w *world, tr *offerTracker, myVers, peerVers []uint8
 		return encAccept(ver, uint16(4242+7*len(tr.noListenAt)), all)
 	}
 	cid := p.utp.CidWithAddr(from, addr, false)
+	var acceptedAt time.Duration
 	if tr.now != nil {
-		tr.pendingDial[cid.Send] = tr.now()
+		acceptedAt = tr.now()
+		tr.pendingDial[cid.Send] = acceptedAt
 	}
-	_ = 0
 	go func() {
 		ctx, cancel := context.WithTimeout(context.Background(), 30*time.Second)
 		defer cancel()
@@ -225,7 +226,7 @@ func (p *puppet) serveOffer(w *world, tr *offerTracker, myVers, peerVers []uint8
 			st.Close()
 		case osAcceptStall:
 			if tr.now != nil && len(keys) > 0 && tr.bigKeys[string(keys[0])] {
-				tr.bigStallAt = append(tr.bigStallAt, tr.now())
+				tr.bigStallAt = append(tr.bigStallAt, [2]time.Duration{tr.now(), acceptedAt})
 			}
 			time.Sleep(90 * time.Second)
 			st.Close()
